@@ -62,7 +62,16 @@ pub fn run(
     let num_workers = workers.len();
     let (worker_result_tx, worker_result_rx) = crossbeam_channel::bounded(num_workers);
 
+    #[cfg(feature = "verif")]
+    crate::verif::sched::expect_subs_g(crate::verif::sched::BEATREE_WORKERS, num_workers);
+    #[cfg(feature = "verif")]
+    let mut verif_next_worker = 0usize;
     for worker_params in workers.into_iter() {
+        #[cfg(feature = "verif")]
+        let verif_worker = {
+            verif_next_worker += 1;
+            verif_next_worker - 1
+        };
         let bbn_index = bbn_index.clone();
         let bbn_writer = bbn_writer.clone();
         let page_pool = page_pool.clone();
@@ -72,6 +81,12 @@ pub fn run(
         let worker_result_tx = worker_result_tx.clone();
 
         let branch_stage_worker_task = move || {
+            #[cfg(feature = "verif")]
+            let _verif_sub = crate::verif::sched::SubGuard::begin_g(
+                crate::verif::sched::BEATREE_WORKERS,
+                verif_worker,
+                "branch.worker",
+            );
             // passing the large `Arc` values by reference ensures that they are dropped at the
             // end of this scope, not the end of `run_worker`.
             run_worker(
@@ -96,6 +111,10 @@ pub fn run(
     let mut output = BranchStageOutput::default();
     let mut branch_changeset: Vec<(Key, Option<Arc<BranchNode>>)> = vec![];
 
+    #[cfg(feature = "verif")]
+    crate::verif::sched::worker_point_g(crate::verif::sched::BEATREE_WORKERS, "branch.join", &|| {
+        crate::verif::sched::subs_all_done()
+    });
     for _ in 0..num_workers {
         let worker_output = join_task(&worker_result_rx)?;
         apply_bbn_changes(&mut output, &mut branch_changeset, worker_output);
@@ -449,6 +468,12 @@ fn run_worker(
         // we are able to respond to each request
         assert!(pending_left_request.is_none());
 
+        #[cfg(feature = "verif")]
+        if let Some(l) = worker_params.left_neighbor.as_ref() {
+            crate::verif::sched::worker_point_g(crate::verif::sched::BEATREE_WORKERS, "branch.wait-left", &|| {
+                crate::verif::sched::recv_ready(&l.rx)
+            });
+        }
         match worker_params.left_neighbor.as_ref().map(|l| l.rx.recv()) {
             None => continue,
             Some(Ok(item)) => {
